@@ -11,7 +11,8 @@ static const int keytab[8] = { 50000, 100000, 100000, 150000, 50000, 150000, 100
 
 typedef struct { int pad; list_node_t link; int key; } item_t;
 static item_t *items;        /* heap allocated: ASan redzones around it */
-static list_t *lists;
+static list_t **lptr;       /* every list_t is a heap object of its own, so that it can be moved */
+#define LST(l) (*lptr[l])
 static int nnodes, nlists;
 static list_iterator_t iter;
 static int itl;              /* 0 = no live iterator */
@@ -24,27 +25,29 @@ static int idx(list_node_t *n)
 		if (n == &items[i].link)
 			return i + 1;
 	for (int l = 0; l < nlists; l++)
-		if ((void *)n == (void *)&lists[l].head)
+		if ((void *)n == (void *)&LST(l).head)
 			return -(l + 1);
 	return 999;
 }
 static list_node_t *node(int i) { return i ? &items[i - 1].link : NULL; }   /* 0: the NULL node (searching for it finds nothing and ends past the end) */
 static int member(int n);
+static int cmpmode;          /* the comparator's shape: key difference, strict (never reports a tie), or -1 / 0 / +1 */
 static int cmp(list_node_t *a, list_node_t *b)
 {
 	/* a comparator may itself use the library (on other lists): the call in progress must not notice */
 	if (nlists > 1 && nnodes > 0) {
 		list_iterator_t tmp;
-		(void) list_contains(&lists[nlists - 1], &items[0].link, NULL);
-		(void) list_iterate(&lists[0], &tmp);
+		(void) list_contains(&LST(nlists - 1), &items[0].link, NULL);
+		(void) list_iterate(&LST(0), &tmp);
 	}
-	return containerof(a, item_t, link)->key - containerof(b, item_t, link)->key;
+	int ka = containerof(a, item_t, link)->key, kb = containerof(b, item_t, link)->key;
+	return cmpmode == 0 ? ka - kb : cmpmode == 1 ? (ka < kb ? -1 : 1) : (ka > kb) - (ka < kb);
 }
 static int member(int n)
 {
 	for (int l = 0; l < nlists; l++) {
 		int fuel = nnodes + 2;
-		for (list_node_t *c = lists[l].head; c && fuel--; c = c->next)
+		for (list_node_t *c = LST(l).head; c && fuel--; c = c->next)
 			if (c == node(n))
 				return l + 1;
 	}
@@ -52,12 +55,16 @@ static int member(int n)
 }
 static void reset(int nn, int nl)
 {
+	static unsigned nreset;
 	free(items);
-	free(lists);
+	for (int l = 0; lptr && l < nlists; l++) free(lptr[l]);
+	free(lptr);
 	nnodes = nn;
 	nlists = nl;
 	items = calloc(nn, sizeof(item_t));
-	lists = calloc(nl, sizeof(list_t));
+	lptr = calloc(nl, sizeof(list_t *));
+	for (int l = 0; l < nl; l++) lptr[l] = calloc(1, sizeof(list_t));
+	cmpmode = nreset++ % 3;
 	for (int i = 0; i < nn; i++)
 		items[i].key = keytab[i % 8];
 	itl = 0;
@@ -71,7 +78,7 @@ static void emit(const char *e, int na, long a0, long a1, long r)
 	for (int l = 0; l < nlists; l++) {
 		printf("%s[", l ? "," : "");
 		int fuel = nnodes + 1, first = 1;
-		for (list_node_t *c = lists[l].head; c; c = c->next) {
+		for (list_node_t *c = LST(l).head; c; c = c->next) {
 			if (!fuel--) { printf("%s999", first ? "" : ","); break; }
 			printf("%s%d", first ? "" : ",", idx(c));
 			first = 0;
@@ -80,7 +87,7 @@ static void emit(const char *e, int na, long a0, long a1, long r)
 	}
 	printf("],\"tl\":[");
 	for (int l = 0; l < nlists; l++)
-		printf("%s%d", l ? "," : "", lists[l].head ? idx(lists[l].tail) : 0);
+		printf("%s%d", l ? "," : "", LST(l).head ? idx(LST(l).tail) : 0);
 	printf("],\"nx\":[");
 	for (int i = 0; i < nnodes; i++)
 		printf("%s%d", i ? "," : "", idx(items[i].link.next));
@@ -89,7 +96,7 @@ static void emit(const char *e, int na, long a0, long a1, long r)
 /* the node whose next field the live iterator points at (0: the list's head link) */
 static int iter_pred(void)
 {
-	if (!itl || iter.prevnext == &lists[itl - 1].head) return 0;
+	if (!itl || iter.prevnext == &LST(itl - 1).head) return 0;
 	for (int i = 0; i < nnodes; i++) if (iter.prevnext == &items[i].link.next) return i + 1;
 	return -1;
 }
@@ -99,23 +106,38 @@ static void apply(const char *op, long a, long b)
 {
 	long r = 0;
 	int na = 2;
-	if (!strcmp(op, "Insert")) { list_insert(&lists[a - 1], node(b)); }
-	else if (!strcmp(op, "Push")) { list_push(&lists[a - 1], node(b)); }
-	else if (!strcmp(op, "InsertSorted")) { list_insert_sorted(&lists[a - 1], node(b), cmp); }
-	else if (!strcmp(op, "Extract")) { int pr = iter_pred(); r = idx(list_extract(&lists[a - 1])); if (itl == a && r > 0 && pr == r) itl = 0; na = 1; }
-	else if (!strcmp(op, "Remove")) { int pr = iter_pred(); r = list_remove(&lists[a - 1], node(b)); if (itl == a && r && pr == b) itl = 0; }
-	else if (!strcmp(op, "Contains")) { r = list_contains(&lists[a - 1], node(b), NULL); }
+	if (!strcmp(op, "Insert")) { list_insert(&LST(a - 1), node(b)); }
+	else if (!strcmp(op, "Push")) { list_push(&LST(a - 1), node(b)); }
+	else if (!strcmp(op, "InsertSorted")) { list_insert_sorted(&LST(a - 1), node(b), cmp); }
+	else if (!strcmp(op, "Extract")) { int pr = iter_pred(); r = idx(list_extract(&LST(a - 1))); if (itl == a && r > 0 && pr == r) itl = 0; na = 1; }
+	else if (!strcmp(op, "Remove")) { int pr = iter_pred(); r = list_remove(&LST(a - 1), node(b)); if (itl == a && r && pr == b) itl = 0; }
+	else if (!strcmp(op, "Contains")) { r = list_contains(&LST(a - 1), node(b), NULL); }
 	else if (!strcmp(op, "ContainsIter")) {
 		/* a caller that wants only the iterator position may ignore the answer: on alternate calls the result is
 		 * discarded (and asked for again, without an iterator, for the log) */
 		static unsigned alt;
-		if (alt++ & 1) { (void) list_contains(&lists[a - 1], node(b), &iter); r = list_contains(&lists[a - 1], node(b), NULL); }
-		else r = list_contains(&lists[a - 1], node(b), &iter);
+		if (alt++ & 1) { (void) list_contains(&LST(a - 1), node(b), &iter); r = list_contains(&LST(a - 1), node(b), NULL); }
+		else r = list_contains(&LST(a - 1), node(b), &iter);
 		itl = a;
 	}
-	else if (!strcmp(op, "Iterate")) { r = idx(list_iterate(&lists[a - 1], &iter)); itl = a; na = 1; }
+	else if (!strcmp(op, "Iterate")) { r = idx(list_iterate(&LST(a - 1), &iter)); itl = a; na = 1; }
 	else if (!strcmp(op, "IterNext")) { r = idx(list_iterator_next(&iter)); na = 0; }
-	else if (!strcmp(op, "IterInsert")) { list_iterator_insert(&iter, node(a)); na = 1; }
+	else if (!strcmp(op, "IterInsert")) {
+		/* the one insertion call without a precondition on the node's link: on alternate calls the node arrives with
+		 * whatever an earlier life left in it (it is in no list) */
+		static unsigned stale;
+		if (a && !member(a) && (stale++ & 1)) node(a)->next = &items[(a + stale) % nnodes].link;
+		list_iterator_insert(&iter, node(a)); na = 1;
+	}
+	else if (!strcmp(op, "Relocate")) {
+		/* the list_t itself moves (struct assignment); the old object is given back to the allocator */
+		list_t *nl = malloc(sizeof(list_t));
+		*nl = LST(a - 1);
+		memset(lptr[a - 1], 0x5A, sizeof(list_t));
+		free(lptr[a - 1]);
+		lptr[a - 1] = nl;
+		na = 1;
+	}
 	else if (!strcmp(op, "IterRemove")) { r = idx(list_iterator_remove(&iter)); na = 0; }
 	else { fprintf(stderr, "list_drv: unknown op %s\n", op); exit(3); }
 	emit(op, na, a, b, r);
@@ -131,7 +153,8 @@ static void gen(long seed, int nexec, int nops, int nn, int nl)
 		for (int k = 0; k < ops; k++) {
 			int l = 1 + drv_below(nl), n = 1 + drv_below(nn);
 			int m = member(n);
-			switch (drv_below(13)) {
+			switch (drv_below(14)) {
+			case 13: if (itl != l) apply("Relocate", l, 0); break;
 			case 0: case 1: if (!m) apply("Insert", l, n); break;
 			case 2: if (!m) apply("Push", l, n); break;
 			case 3: if (!m) apply("InsertSorted", l, n); break;
